@@ -9,6 +9,7 @@ pub fn run(id: &str, tier: &str, seed: u64) -> Result<String, String> {
         "cram-codecs-roundtrip" => cram_codecs_roundtrip(tier, seed, None),
         "bcf-roundtrip" => bcf_roundtrip(tier),
         "bam-roundtrip" => bam_roundtrip(tier),
+        "cram-roundtrip" => cram_roundtrip(tier),
         "cram-decoders-hostile" => cram_decoders_hostile(tier, seed),
         n if n.starts_with("file-") && n.contains(':') => { let (t, h) = n[5..].split_once(':').unwrap(); let x: Vec<u8> = (0..h.len() / 2).map(|i| u8::from_str_radix(&h[2 * i..2 * i + 2], 16).unwrap()).collect(); let ts = crate::hostile::targets(); let t = ts.iter().find(|k| k.name == t).ok_or("unknown target")?; (t.run)(&x); Ok("\"ran\":1".into()) }
         "file-mutations" => crate::hostile::parent(tier, None),
@@ -452,5 +453,165 @@ fn bam_roundtrip(tier: &str) -> Result<String, String> {
     }
     if accepted.len() < 40 { return Err("UNDECIDED: fewer than 40 records were accepted by the writer — the harness would be vacuous".into()); }
     if fails.is_empty() { Ok(format!("\"records_written\":{},\"refused_by_writer\":{refused},\"invalid_records_refused\":{bad_refused}", accepted.len())) }
+    else { Err(format!("FAILURES\n{}", fails.values().cloned().collect::<Vec<_>>().join("\n"))) }
+}
+
+// ---------------------------------------------------------------------------------------------------------------------
+// C07 / C19 / C08 BOUNDED-NATIVE stand-in for what no contract reaches (record <-> data series, codecs on realistic data,
+// container bookkeeping, index + query): SAM text -> RecordBuf -> cram::io::Writer (several option/codec configurations)
+// -> cram::io::Reader -> RecordBuf must give back the records (bases compared case-insensitively); an independent walk
+// over the container headers checks the counters; cram::fs::index + Reader::query must return exactly what a scan keeps.
+// Records WITHOUT quality scores are left out (known finding F37).  Never counted as proved.
+fn cram_roundtrip(tier: &str) -> Result<String, String> {
+    use noodles_sam as sam;
+    use sam::alignment::io::Write as _;
+    use noodles_cram::{codecs::{aac, rans_4x8, rans_nx16, Encoder}, container::{block_content_encoder_map::Builder as MapBuilder, compression_header::data_series_encodings::DataSeries, BlockContentEncoderMap}};
+    use std::collections::BTreeMap;
+    let base = |i: usize| b"ACGT"[((i as u64).wrapping_mul(2654435761) >> 7) as usize % 4];
+    let refs: Vec<(String, Vec<u8>)> = vec![("sq0".into(), (0..260_000).map(base).collect()), ("sq1".into(), (0..260_000).map(|i| base(i + 17)).collect())];
+    let header: sam::Header = format!("@HD\tVN:1.6\tSO:coordinate\n@SQ\tSN:sq0\tLN:{}\n@SQ\tSN:sq1\tLN:{}\n@RG\tID:rg0\n@RG\tID:rg1\n", refs[0].1.len(), refs[1].1.len()).parse().map_err(|e| format!("header: {e}"))?;
+    let repo = noodles_fasta::Repository::new(refs.iter().map(|(n, s)| noodles_fasta::Record::new(noodles_fasta::record::Definition::new(n.clone(), None), noodles_fasta::record::Sequence::from(s.clone()))).collect::<Vec<_>>());
+    let qual = |n: usize, k: usize| -> String { (0..n).map(|i| (33 + 2 + ((i * 5 + k * 3) % 40)) as u8 as char).collect() };
+    // ---- a small, varied record set (one multi-reference slice) ----
+    let rbases = |r: usize, pos: usize, n: usize| -> String { String::from_utf8(refs[r].1[pos - 1..pos - 1 + n].to_vec()).unwrap() };
+    let mutate = |s: &str, i: usize, c: char| -> String { let mut v: Vec<char> = s.chars().collect(); v[i] = if v[i] == c { 'T' } else { c }; v.into_iter().collect() };
+    let mut small: Vec<String> = Vec::new();
+    let mut k = 0usize;
+    let mut push = |v: &mut Vec<String>, name: &str, flag: u16, r: &str, pos: usize, mapq: u8, cigar: &str, rnext: &str, pnext: usize, tlen: i64, sq: &str, data: &str| { k += 1; v.push(format!("{name}\t{flag}\t{r}\t{pos}\t{mapq}\t{cigar}\t{rnext}\t{pnext}\t{tlen}\t{sq}\t{}{}{data}\n", qual(sq.len(), k), if data.is_empty() { "" } else { "\t" })); };
+    push(&mut small, "m.0001", 0, "sq0", 5, 30, "20M", "*", 0, 0, &rbases(0, 5, 20), "RG:Z:rg0\tNM:i:0");
+    push(&mut small, "m.0002", 16, "sq0", 9, 31, "20M", "*", 0, 0, &mutate(&rbases(0, 9, 20), 3, 'A'), "RG:Z:rg1\tXA:A:c");
+    push(&mut small, "m.0003", 0, "sq0", 12, 32, "5M2I13M", "*", 0, 0, &format!("{}GG{}", rbases(0, 12, 5), rbases(0, 17, 13)), "XI:i:-70000\tXB:B:c,-1,2");
+    push(&mut small, "m.0004", 0, "sq0", 15, 33, "5M1I14M", "*", 0, 0, &format!("{}C{}", rbases(0, 15, 5), rbases(0, 20, 14)), "");
+    push(&mut small, "m.0005", 0, "sq0", 20, 34, "8M3D12M", "*", 0, 0, &format!("{}{}", rbases(0, 20, 8), rbases(0, 31, 12)), "XZ:Z:hello world");
+    push(&mut small, "m.0006", 0, "sq0", 22, 35, "3S10M50N7M2S", "*", 0, 0, &format!("TTT{}{}AA", rbases(0, 22, 10), rbases(0, 82, 7)), "");
+    push(&mut small, "m.0007", 0, "sq0", 25, 36, "2H18M1P2M3H", "*", 0, 0, &rbases(0, 25, 20), "XF:f:0.5");
+    push(&mut small, "m.0008", 0, "sq0", 30, 37, "20M", "*", 0, 0, &mutate(&mutate(&rbases(0, 30, 20), 0, 'N'), 19, 'R'), "XH:H:CAFE");
+    push(&mut small, "p.0009", 99, "sq0", 40, 40, "20M", "=", 90, 70, &rbases(0, 40, 20), "RG:Z:rg0");
+    push(&mut small, "m.0010", 0, "sq0", 41, 20, "10M", "*", 0, 0, &rbases(0, 41, 10), "");            // contained in the previous, longer read
+    push(&mut small, "p.0009", 147, "sq0", 90, 40, "20M", "=", 40, -70, &rbases(0, 90, 20), "RG:Z:rg0");
+    push(&mut small, "q.0011", 65, "sq0", 100, 10, "20M", "sq1", 500, 0, &rbases(0, 100, 20), "");     // mate on another reference
+    push(&mut small, "z.0012", 0, "sq0", 259_981, 1, "20M", "*", 0, 0, &rbases(0, 259_981, 20), "");   // last bases of the reference
+    push(&mut small, "m.0013", 0, "sq1", 1, 1, "20M", "*", 0, 0, &rbases(1, 1, 20), "");
+    push(&mut small, "q.0011", 129, "sq1", 500, 10, "20M", "sq0", 100, 0, &mutate(&rbases(1, 500, 20), 7, 'G'), "");
+    push(&mut small, "u.0014", 69, "sq1", 500, 0, "*", "=", 500, 0, "ACGTNACGTN", "");                // placed unmapped
+    push(&mut small, "m.0015", 0, "sq1", 600, 9, "20M", "*", 0, 0, &rbases(1, 600, 20), "");
+    push(&mut small, "u.0016", 4, "*", 0, 0, "*", "*", 0, 0, "GATTACA", "XU:i:255");
+    push(&mut small, "u.0017", 4, "*", 0, 0, "*", "*", 0, 0, "NNNNACGT", "");
+    // ---- a large single-reference-per-slice set: 10240 on sq0, 10240 on sq1, unmapped tail ----
+    let mut big: Vec<String> = Vec::new();
+    let nbig = 10240usize;
+    for r in 0..2 { for i in 0..nbig { let pos = 1 + i * 25; let len = 20 + (i % 5) * 4; let mut sq = rbases(r, pos, len); if i % 7 == 3 { sq = mutate(&sq, i % len, 'A'); }
+        let (cigar, sq) = if i % 11 == 5 { (format!("10M2I{}M", len - 10), format!("{}TT{}", &sq[..10], &sq[10..])) } else if i % 13 == 6 { (format!("10M4D{}M", len - 10), format!("{}{}", &sq[..10], rbases(r, pos + 14, len - 10))) } else { (format!("{len}M"), sq) };
+        let name = format!("read.{:04}.{:03}/{}", i / 7, i % 1000, 1 + i % 2);
+        push(&mut big, &name, if i % 3 == 0 { 16 } else { 0 }, if r == 0 { "sq0" } else { "sq1" }, pos, (i % 61) as u8, &cigar, "*", 0, 0, &sq, if i % 4 == 0 { "RG:Z:rg0" } else { "" }); } }
+    for i in 0..600 { push(&mut big, &format!("unm.{i}"), 4, "*", 0, 0, "*", "*", 0, 0, "ACGTACGTAC", ""); }
+    let parse = |lines: &Vec<String>| -> Result<Vec<sam::alignment::RecordBuf>, String> { let text: String = lines.concat(); let mut rd = sam::io::Reader::new(text.as_bytes()); rd.record_bufs(&header).collect::<Result<Vec<_>, _>>().map_err(|e| format!("sam: {e}")) };
+    let small_recs = parse(&small)?; let big_recs = parse(&big)?;
+    let mut fails: BTreeMap<String, String> = BTreeMap::new();
+    // ---- comparison of a record read back with the one written ----
+    let diff = |a: &sam::alignment::RecordBuf, b: &sam::alignment::RecordBuf| -> Vec<&'static str> {
+        let mut d = Vec::new();
+        if a.name() != b.name() { d.push("name"); } if a.flags() != b.flags() { d.push("flags"); } if a.reference_sequence_id() != b.reference_sequence_id() { d.push("reference"); }
+        if a.alignment_start() != b.alignment_start() { d.push("position"); } if a.mapping_quality() != b.mapping_quality() && !a.flags().is_unmapped() { d.push("mapq"); }   // CRAM stores no mapping quality for unmapped reads
+        if a.cigar() != b.cigar() { d.push("cigar"); }
+        if a.mate_reference_sequence_id() != b.mate_reference_sequence_id() || a.mate_alignment_start() != b.mate_alignment_start() { d.push("mate position"); } if a.template_length() != b.template_length() { d.push("template length"); }
+        if !a.sequence().as_ref().eq_ignore_ascii_case(b.sequence().as_ref()) { d.push("sequence"); } if a.quality_scores() != b.quality_scores() { d.push("quality scores"); }
+        let tags = |r: &sam::alignment::RecordBuf| { let mut v: Vec<String> = r.data().iter().map(|(t, v)| format!("{t:?}={v:?}")).collect(); v.sort(); v };
+        if tags(a) != tags(b) { d.push("data"); }
+        d
+    };
+    let write = |recs: &[sam::alignment::RecordBuf], deltas: bool, map: Option<BlockContentEncoderMap>| -> Result<Vec<u8>, String> {
+        let mut b = noodles_cram::io::writer::Builder::default().set_reference_sequence_repository(repo.clone()).encode_alignment_start_positions_as_deltas(deltas);
+        if let Some(m) = map { b = b.set_block_content_encoder_map(m); }
+        let mut w = b.build_from_writer(Vec::new());
+        w.write_header(&header).map_err(|e| format!("write_header: {e}"))?;
+        for r in recs { w.write_alignment_record(&header, r).map_err(|e| format!("write: {e}"))?; }
+        w.try_finish(&header).map_err(|e| format!("finish: {e}"))?;
+        Ok(w.get_ref().clone())
+    };
+    let read = |data: &[u8]| -> Result<Vec<sam::alignment::RecordBuf>, String> {
+        let mut rd = noodles_cram::io::reader::Builder::default().set_reference_sequence_repository(repo.clone()).build_from_reader(data);
+        let h = rd.read_header().map_err(|e| format!("read_header: {e}"))?;
+        let mut out = Vec::new();
+        for r in rd.records(&h) { let r = r.map_err(|e| format!("reading record {}: {e}", out.len()))?; out.push(sam::alignment::RecordBuf::try_from_alignment_record(&h, &r).map_err(|e| format!("converting record {}: {e}", out.len()))?); }
+        Ok(out)
+    };
+    let mut configs: Vec<(String, bool, Option<BlockContentEncoderMap>)> = vec![("default".into(), true, None), ("absolute positions".into(), false, None)];
+    let qs = DataSeries::QualityScores; let nm = DataSeries::Names; let bs = DataSeries::BamFlags;
+    for (n, ds, e) in [("rANS 4x8 o0 on quality scores", qs, Encoder::Rans4x8(rans_4x8::Order::Zero)), ("rANS 4x8 o1 on quality scores", qs, Encoder::Rans4x8(rans_4x8::Order::One)),
+        ("rANS Nx16 o0 on quality scores", qs, Encoder::RansNx16(rans_nx16::Flags::empty())), ("rANS Nx16 N32 on quality scores", qs, Encoder::RansNx16(rans_nx16::Flags::N32)), ("rANS Nx16 RLE on flags", bs, Encoder::RansNx16(rans_nx16::Flags::RLE)), ("rANS Nx16 PACK on flags", bs, Encoder::RansNx16(rans_nx16::Flags::PACK)),
+        ("AAC o0 on quality scores", qs, Encoder::AdaptiveArithmeticCoding(aac::Flags::empty())), ("AAC o1 on quality scores", qs, Encoder::AdaptiveArithmeticCoding(aac::Flags::ORDER)), ("AAC RLE on flags", bs, Encoder::AdaptiveArithmeticCoding(aac::Flags::RLE)),
+        ("name tokenizer on names", nm, Encoder::NameTokenizer), ("fqzcomp on quality scores", qs, Encoder::Fqzcomp), ("gzip on names", nm, Encoder::Gzip(Default::default())), ("bzip2 on quality scores", qs, Encoder::Bzip2(Default::default())), ("lzma on names", nm, Encoder::Lzma(6))] {
+        configs.push((n.into(), true, Some(MapBuilder::default().set_data_series_encoder(ds, Some(e)).build())));
+    }
+    static PANIC_LOC: std::sync::Mutex<String> = std::sync::Mutex::new(String::new());
+    std::panic::set_hook(Box::new(|info| { if let Some(l) = info.location() { let f = l.file(); let f = match f.find("/noodles-") { Some(i) => &f[i + 1..], None => f }; *PANIC_LOC.lock().unwrap() = format!("{}:{}", f, l.line()); } }));
+    let mut cases = 0u64;
+    let mut default_big: Option<Vec<u8>> = None;
+    // what goes wrong -> (configurations under which it does, record set)
+    let mut by_kind: BTreeMap<String, (Vec<String>, String)> = BTreeMap::new();
+    for (cname, deltas, map) in configs {
+        for (sname, recs) in [("small multi-reference set", &small_recs), ("21080-record set", &big_recs)] {
+            if sname.starts_with("21080") && tier != "thorough" && !(cname == "default" || cname.contains("tokenizer") || cname.contains("AAC o0") || cname.contains("Nx16 o0") || cname.contains("fqzcomp")) { continue; }
+            cases += 1;
+            let mut diffs: Vec<String> = Vec::new();
+            let r = std::panic::catch_unwind(std::panic::AssertUnwindSafe(|| -> Result<Vec<u8>, String> {
+                let data = write(recs, deltas, map.clone()).map_err(|e| format!("the writer fails ({e})"))?;
+                let back = read(&data).map_err(|e| format!("the reader fails on the writer's output ({e})"))?;
+                if back.len() != recs.len() { return Err(format!("{} records read back, {} written", back.len(), recs.len())); }
+                // every differing record is its own finding (up to 8 per configuration), so that a known one does not hide another
+                for (i, (a, b)) in recs.iter().zip(back.iter()).enumerate() { let d = diff(a, b); if !d.is_empty() && diffs.len() < 8 { diffs.push(format!("record {i} ({:?}) reads back different in: {}", a.name().map(|n| n.to_string()), d.join(", "))); } }
+                Ok(data)
+            }));
+            for e in &diffs { let en = by_kind.entry(e.clone()).or_insert_with(|| (Vec::new(), sname.to_string())); en.0.push(cname.clone()); }
+            match r { Err(_) => { let loc = PANIC_LOC.lock().unwrap().clone(); let e = by_kind.entry(format!("PANICS at {loc}")).or_insert_with(|| (Vec::new(), sname.to_string())); e.0.push(cname.clone()); }
+                Ok(Err(e)) => { let en = by_kind.entry(e.clone()).or_insert_with(|| (Vec::new(), sname.to_string())); en.0.push(cname.clone()); }
+                Ok(Ok(data)) => { if cname == "default" && sname.starts_with("21080") && diffs.is_empty() { default_big = Some(data); } } }
+        }
+    }
+    for (what, (cfgs, sname)) in &by_kind { fails.insert(format!("rt {what}"), format!("cram round trip: {what}; on the {sname}; under {} configuration(s): {}", cfgs.len(), cfgs.join(", "))); }
+    // ---- container bookkeeping + index + query on the default 21080-record file ----
+    if default_big.is_none() { default_big = std::panic::catch_unwind(std::panic::AssertUnwindSafe(|| write(&big_recs, true, None).ok())).ok().flatten(); }
+    if let Some(data) = &default_big {
+        let r = std::panic::catch_unwind(std::panic::AssertUnwindSafe(|| -> Result<(), String> {
+            let mut rd = noodles_cram::io::Reader::new(&data[..]);
+            rd.read_header().map_err(|e| format!("read_header: {e}"))?;
+            let mut c = noodles_cram::io::reader::Container::default();
+            let (mut counter, mut n_containers) = (0u64, 0);
+            loop { let n = rd.read_container(&mut c).map_err(|e| format!("read_container: {e}"))?; if n == 0 { break; }
+                if c.header().record_counter() != counter { return Err(format!("container {n_containers} declares record counter {} but {} records precede it", c.header().record_counter(), counter)); }
+                let mut n_slices = 0;
+                for sl in c.slices() { sl.map_err(|e| format!("slice: {e}"))?; n_slices += 1; }
+                if n_slices != c.header().landmarks().len() { return Err(format!("container {n_containers} has {} landmarks for {n_slices} slices", c.header().landmarks().len())); }
+                counter += c.header().record_count() as u64; n_containers += 1; }
+            if counter != big_recs.len() as u64 { return Err(format!("the containers declare {counter} records in total, {} were written", big_recs.len())); }
+            if n_containers < 3 { return Err(format!("UNDECIDED-only {n_containers} data containers")); }
+            Ok(())
+        }));
+        match r { Err(_) => { fails.entry("walk panic".into()).or_insert_with(|| "cram containers: walking the container headers PANICS".into()); } Ok(Err(e)) => { fails.entry(format!("walk {}", &e[..e.len().min(30)])).or_insert_with(|| format!("cram containers: {e}")); } Ok(Ok(())) => {} }
+        // index + query vs scan
+        let path = std::env::temp_dir().join(format!("verif-native-{}.cram", std::process::id()));
+        let r = std::panic::catch_unwind(std::panic::AssertUnwindSafe(|| -> Result<u64, String> {
+            std::fs::write(&path, data).map_err(|e| format!("tmp file: {e}"))?;
+            let index = noodles_cram::fs::index(&path).map_err(|e| format!("cram::fs::index fails ({e})"))?;
+            // every index entry names a container offset at which a container starts
+            let mut q = 0u64;
+            for region in ["sq0:1-30", "sq0:26-26", "sq0:1000-1010", "sq0:255976-260000", "sq0", "sq1:1-1", "sq1:5000-5100", "sq1", "sq0:260000-260000"] {
+                let region: noodles_core::Region = region.parse().map_err(|e| format!("region: {e}"))?;
+                let rid = header.reference_sequences().get_index_of(region.name()).unwrap();
+                let expected: Vec<String> = big_recs.iter().filter(|r| r.reference_sequence_id() == Some(rid) && !r.flags().is_unmapped() && match (r.alignment_start(), r.alignment_end()) { (Some(s), Some(e)) => region.interval().intersects((s..=e).into()), _ => false }).map(|r| format!("{:?}@{:?}", r.name().map(|n| n.to_string()), r.alignment_start())).collect();
+                let mut rd = noodles_cram::io::reader::Builder::default().set_reference_sequence_repository(repo.clone()).build_from_path(&path).map_err(|e| format!("open: {e}"))?;
+                let h = rd.read_header().map_err(|e| format!("read_header: {e}"))?;
+                let got: Vec<String> = rd.query(&h, &index, &region).map_err(|e| format!("query: {e}"))?.records().map(|r| r.map(|r| format!("{:?}@{:?}", r.name().map(|n| n.to_string()), r.alignment_start()))).collect::<Result<_, _>>().map_err(|e| format!("query record: {e}"))?;
+                q += 1;
+                if got != expected { return Err(format!("query {region} returns {} records, a scan keeps {} (first returned {:?}, first expected {:?})", got.len(), expected.len(), got.first(), expected.first())); }
+            }
+            Ok(q)
+        }));
+        let _ = std::fs::remove_file(&path);
+        match r { Err(_) => { fails.entry("query panic".into()).or_insert_with(|| "cram index+query: PANICS".into()); } Ok(Err(e)) => { fails.entry(format!("query {}", &e[..e.len().min(24)])).or_insert_with(|| format!("cram index+query: {e}")); } Ok(Ok(_)) => {} }
+    } else { fails.entry("no default file".into()).or_insert_with(|| "cram round trip: the default configuration did not produce a file for the container/index checks".into()); }
+    let _ = std::panic::take_hook();
+    if fails.is_empty() { Ok(format!("\"configurations_x_record_sets\":{cases},\"records\":{}", small_recs.len() + big_recs.len())) }
     else { Err(format!("FAILURES\n{}", fails.values().cloned().collect::<Vec<_>>().join("\n"))) }
 }
